@@ -9,6 +9,54 @@ using namespace plan;
 
 #ifdef VF_C19P
 #define KP "C19/planner"
+#include <sched.h>
+#include <time.h>
+#include <functional>
+#include <thread>
+#include "ompl/util/VerifHooks.h"
+// Schedule perturbation at the library's OMPL_VERIF yield points (the lock sites of the threaded planners). The decision at each point
+// comes from a per-thread generator seeded with the case seed and the thread's identity: the harness owns no global randomness, the
+// scheduler's own nondeterminism remains (C19 samples schedules, it cannot enumerate them).
+namespace
+{
+    std::atomic<unsigned> g_yieldMode{0};
+    std::atomic<uint64_t> g_yieldSeed{1};
+    std::atomic<uint64_t> g_yieldCount{0};
+    void perturb(const char *)
+    {
+        thread_local uint64_t x = 0;
+        if (x == 0)
+            x = (g_yieldSeed.load() * 0x9e3779b97f4a7c15ull) ^ (std::hash<std::thread::id>()(std::this_thread::get_id()) | 1);
+        x ^= x << 13;
+        x ^= x >> 7;
+        x ^= x << 17;
+        g_yieldCount.fetch_add(1, std::memory_order_relaxed);
+        const unsigned mode = g_yieldMode.load(std::memory_order_relaxed);
+        const unsigned r = (unsigned)(x >> 33);
+        if (mode == 1)
+        {
+            if (r & 1)
+                sched_yield();
+        }
+        else if (mode == 2)
+        {
+            if ((r & 3) == 0)
+            {
+                timespec ts{0, (long)(1000 + (r >> 2) % 100000)};  // 1 .. 100 microseconds
+                nanosleep(&ts, nullptr);
+            }
+        }
+        else if (mode == 3)
+        {
+            sched_yield();
+            if ((r & 63) == 0)
+            {
+                timespec ts{0, 1000000};  // a millisecond now and then: lets every other worker run ahead
+                nanosleep(&ts, nullptr);
+            }
+        }
+    }
+}
 #else
 #define KP "C01"
 #endif
@@ -97,6 +145,16 @@ void vf::run_case(Src &s, Ctx &c)
     c.count(tuned.empty() ? "params:defaults" : "params:tuned");
     // decoded last, so that saved cases (which end before this byte) keep their meaning: a quarter of the cases get a budget from the top of
     // the range - the informed-tree planners only start their forward search after a batch of samples and a reverse search
+#ifdef VF_C19P
+    {
+        // decoded last as well: how the workers are disturbed at the library's yield points
+        unsigned mode = s.chance(170) ? 1 + (unsigned)s.pick(3) : 0;
+        g_yieldSeed = seed;
+        g_yieldMode = mode;
+        ompl::verif::yieldHook().store(mode ? &perturb : nullptr);
+        c.count("schedule:" + std::string(mode == 0 ? "undisturbed" : mode == 1 ? "yield-half" : mode == 2 ? "short-sleeps" : "yield-always+ms-sleeps"));
+    }
+#endif
     if (s.chance(100))
     {
         budget = std::max(budget, (long)(s.real(1000, 4000) * pi.budgetScale));
